@@ -82,6 +82,7 @@ fn run_case_lb(seq: &[Op], loopback: bool, trace: bool) -> CaseResult {
     let mut orphan_growth: HashMap<String, i64> = HashMap::new();
     let mut subtype_entries_left = false;
     let mut ptrs_at_browse_start: i64 = 0;
+    let mut type_entry_from_resolver_time = false;
     let mut trail = String::new();
     let metrics = |w: &mut World| -> HashMap<String, i64> { w.metrics(0).unwrap_or_default() };
     let g = |m: &HashMap<String, i64>, k: &str| m.get(k).copied().unwrap_or(0);
@@ -196,6 +197,7 @@ fn run_case_lb(seq: &[Op], loopback: bool, trace: bool) -> CaseResult {
                 if !browsing {
                     browse_baseline = Some(before.clone());
                     orphan_growth.clear();
+                    ptrs_at_browse_start = g(&before, "cached-ptr");
                 }
                 let rx = w.ds[0].h.browse_cache("_t._tcp.local.").unwrap();
                 w.add_browse(0, rx);
@@ -274,6 +276,9 @@ fn run_case_lb(seq: &[Op], loopback: bool, trace: bool) -> CaseResult {
                     }
                 }
             }
+            if resolving && !browsing && !unsolicited && grew.iter().any(|(c, _)| c == "cached-ptr") {
+                type_entry_from_resolver_time = true;
+            }
             // (1) nothing is kept when nothing asked for it
             if !browsing && !resolving && !unsolicited && !grew.is_empty() {
                 // the corpus packets without a PTR are the same situation as the orphan stream
@@ -284,6 +289,9 @@ fn run_case_lb(seq: &[Op], loopback: bool, trace: bool) -> CaseResult {
                 let what = match op {
                     Op::OrphanStream | Op::HostileCorpus => "srv-txt-addr-nsec-without-ptr",
                     _ if only_ptr && subtype_entries_left => "subtype-ptrs-admitted-through-entries-left-by-stop_browse",
+                    // a PTR entry of the type was created while a resolver was open (finding
+                    // '...while-only-a-resolver-is-open') and outlives stop_resolve_hostname
+                    _ if only_ptr && type_entry_from_resolver_time => "ptrs-admitted-through-an-entry-created-while-a-resolver-was-open",
                     _ => "other",
                 };
                 res.viols.push(viol(
